@@ -147,7 +147,7 @@ def run_case(case):
             cont = cont[k]
         # choose the position and (optionally) plant the prior value there
         if want == "dict":
-            key = "p"
+            key = "_p" if entry == "setattr" else "p"   # a non-protected name with a leading underscore
             if prior is not ABSENT:
                 cont[key] = copy.deepcopy(prior)
         else:
